@@ -1,1 +1,38 @@
-import TT.Model.Wire
+/-
+  C07 — A rejected event has no effect.
+
+  `tryReceive` is written in the statement order of `try_receive`, and state survives an error
+  exactly as `&mut self` and the host do in Rust; the theorem says that whenever an error is
+  returned the whole state (receiver state, arena, host log, host stack) is the one before.
+-/
+import TT.Model.History
+
+namespace TT
+
+/-- The history with the rejected events removed (rejection decided along the run). -/
+def accepted (s : Sys) : List HOp → List HOp
+  | [] => []
+  | .ev e :: ops =>
+    match tryReceive s.σ e with
+    | .err _ _ => accepted s ops
+    | _ => .ev e :: accepted (s.step (.ev e)) ops
+  | op :: ops => op :: accepted (s.step op) ops
+
+/-- When `try_receive` returns an error, neither the host nor the receiver's state changed. -/
+theorem C07_reject_no_effect (σ : Sigma) (e : Event) (r : RErr) (σ' : Sigma)
+    (h : tryReceive σ e = .err r σ') : σ' = σ := by
+  sorry
+
+/-- Host observation, receiver state and persisted state of any history equal those of the
+    history with the rejected events removed. -/
+theorem C07_filter (s : Sys) (ops : List HOp) : runHistory s (accepted s ops) = runHistory s ops := by
+  sorry
+
+/-- Non-vacuity: an event that is rejected in a state that has accumulated something. -/
+example :
+    let d : CallSite := ⟨.span, [110], [97], .info, none, none, none, [[102]]⟩
+    let s := runHistory {} [.ev (.newCallSite 7 d), .ev (.newSpan 1 none 7 [([102], .int 1)]), .ev (.entered 1)]
+    (match tryReceive s.σ (.newSpan 2 (some 9) 7 []) with | .err (.unknownSpan 9) _ => true | _ => false) = true := by
+  decide
+
+end TT
